@@ -240,6 +240,19 @@ def rule_lock(prog: Program) -> List[Instance]:
                 bad.append(short(r))
         out.append(Instance("R-LOCK", f"{fi.qual}#LOCKSINGLETON", BAD if bad else OK,
                             f"returns a lock that is not taken from the process-wide registry: {bad}" if bad else "every return hands out the registered lock (get/setdefault on the module registry)", fi.where()))
+        # a fresh Lock stored with a plain subscript assignment is a non-atomic check-then-insert
+        for n in walk_own(fi.node):
+            if isinstance(n, ast.Assign) and isinstance(n.targets[0], ast.Subscript):
+                val_names = names_in(n.value)
+                fresh = any(isinstance(x, ast.Call) and call_name(x).endswith("Lock") for x in ast.walk(n.value))
+                if not fresh:
+                    for nm in val_names:
+                        for x in walk_own(fi.node):
+                            if isinstance(x, ast.Assign) and short(x.targets[0]) == nm and any(isinstance(y, ast.Call) and call_name(y).endswith("Lock") for y in ast.walk(x.value)):
+                                fresh = True
+                if fresh:
+                    out.append(Instance("R-LOCK", f"{fi.qual}#LOCKATOMIC", BAD,
+                                        f"`{short(n)}` registers a fresh lock with a plain store after a separate lookup: two first callers can each install and receive a different lock (use setdefault)", fi.where(n)))
         # get and setdefault must use the same registry key
         keys = set()
         for n in walk_own(fi.node):
@@ -800,6 +813,11 @@ def _mpu_stride(prog: Program, ci: ClassInfo) -> List[Instance]:
                     adv = n
                 else:
                     first = n
+            if isinstance(n, ast.AugAssign) and isinstance(n.target, ast.Name) and n.target.id == idv and isinstance(n.op, ast.Add):
+                # x += e  ==  x = x + e
+                adv = ast.Assign(targets=[n.target], value=ast.BinOp(left=ast.Name(id=idv, ctx=ast.Load()), op=ast.Add(), right=n.value))
+                ast.copy_location(adv, n)
+                ast.fix_missing_locations(adv)
         if first is not None:
             v = first.value
             base_is_min = isinstance(v, ast.BinOp) and isinstance(v.op, ast.Add) and const_num(v.right) == 1 and any(
